@@ -196,7 +196,8 @@ class TransferContract:
 class Cfg:
     """Embedder configuration of a run (mirrors State.config)."""
     def __init__(self, max_items=1024, max_item_size=1024, limit=128, flags=None, sigext=(),
-                 ctplugins=(), contracts=(), now=None, global_flags=None):
+                 ctplugins=(), contracts=(), now=None, global_flags=None, vmwide=False):
+        self.vmwide = vmwide                    # plugins registered VM-wide (add_plugin) instead of being passed to the call
         self.max_items, self.max_item_size, self.limit = max_items, max_item_size, limit
         self.flags = dict(flags or {})          # additional_flags
         self.global_flags = dict(global_flags or {})   # entries of the module table functions.flags set by the embedder
@@ -247,6 +248,9 @@ class Cfg:
         return d
 
     def to_json(self):
+        if self.vmwide:
+            c = Cfg(self.max_items, self.max_item_size, self.limit, self.flags, self.sigext, self.ctplugins, self.contracts, self.now, self.global_flags)
+            return dict(c.to_json(), vmwide=True)
         if self.global_flags:
             return dict(Cfg(self.max_items, self.max_item_size, self.limit, self.flags, self.sigext, self.ctplugins,
                             self.contracts, self.now).to_json(), global_flags={repr(k): v for k, v in self.global_flags.items()})
@@ -408,6 +412,31 @@ def _run_tape_wrapper(tape, stack, cache, additional_flags={}):
 F.run_tape = _run_tape_wrapper
 
 
+class VMWide:
+    """with-block: the configuration's plugins registered in the module-wide table through add_plugin (what an embedder does once
+    at start-up) instead of being passed to the call; removed again afterwards, in place"""
+    def __init__(self, cfg, log):
+        self.cfg, self.log = cfg, log
+
+    def __enter__(self):
+        self.added = []
+        if self.cfg.vmwide:
+            for scope, lst in self.cfg.plugins(self.log).items():
+                for p_ in lst:
+                    F.add_plugin(scope, p_)
+                    self.added.append((scope, p_))
+        return self
+
+    def per_call(self):
+        return {} if self.cfg.vmwide else self.cfg.plugins(self.log)
+
+    def __exit__(self, *a):
+        for scope, p_ in self.added:
+            if scope in F._plugins and p_ in F._plugins[scope]:
+                F._plugins[scope].remove(p_)
+        return False
+
+
 class Leaks:
     """what one run leaves behind in the module-level registries: plugins and contracts are passed PER CALL by the harness
     (cfg.plugins / cfg.contract_objs), so functions._plugins / functions._contracts must be the same before and after every run"""
@@ -446,9 +475,9 @@ def _impl_run_script(script, cache_vals, cfg, seconds):
     _Capture.recursion = False
     out = None
     _before = Leaks.snap()
-    with GlobalFlags(cfg), (Watch(seconds) if seconds else Watch()):
+    with GlobalFlags(cfg), VMWide(cfg, log) as vw_, (Watch(seconds) if seconds else Watch()):
         try:
-            F.run_script(script, cache_vals, cfg.contract_objs(log), cfg.flags, cfg.plugins(log),
+            F.run_script(script, cache_vals, cfg.contract_objs(log), cfg.flags, vw_.per_call(),
                          cfg.max_items, cfg.max_item_size, cfg.limit)
             out = 'done'
         except RecursionError:
@@ -490,8 +519,8 @@ def _impl_run_auth(scripts, cache_vals, cfg, seconds, share=False):
     _Capture.recursion = False
     v = None
     _before = Leaks.snap()
-    with GlobalFlags(cfg), (Watch(seconds) if seconds else Watch()):
-        v = F.run_auth_scripts(list(scripts), cache_vals, cfg.contract_objs(log), cfg.plugins(log),
+    with GlobalFlags(cfg), VMWide(cfg, log) as vw_, (Watch(seconds) if seconds else Watch()):
+        v = F.run_auth_scripts(list(scripts), cache_vals, cfg.contract_objs(log), vw_.per_call(),
                                cfg.max_items, cfg.max_item_size, cfg.limit)
     if (cfg.sigext or cfg.ctplugins or cfg.contracts) and not Watch.fired:
         Leaks.check(_before, 'run_auth_scripts([%s], %d per-call plugin scope(s), %d per-call contract(s))' % (
